@@ -352,33 +352,68 @@ def r_entry(ctx):
                {x["m"] for x in vf.walk(fi.node) if x["k"] == "mcall"}
     need = [(B, "cddl_from_pest_str", {"convert_cddl"}), (B, "cddl_from_pest_str_checked", {"convert_cddl", "find_first_undefined_reference"}),
             ("src/parser.rs", "cddl_from_str", {"cddl_from_pest_str"})]
+    import cg as cgmod
+    graph = cgmod.CG(f, exclude=("src/parser_tests.rs",))
+
+    def reaches(fi):
+        start = [x for x in graph.fns if x.file == fi.file and x.qual == fi.qual and x.cfg == fi.cfg]
+        ids = graph.reachable(start, weak=False)
+        return {graph.byid[i].name for i in ids}
     for file, name, want in need:
         for fi in f.fn_all(file, name):
-            c = calls(fi)
-            ctx.site(rid, "%s|%s" % (file, name), file, fi.line, {"calls": sorted(c & (want | {"convert_cddl"}))})
+            c = reaches(fi)
+            ctx.site(rid, "%s|%s" % (file, name), file, fi.line, {"reaches": sorted(c & (want | {"convert_cddl"}))})
             for w in want - c:
-                ctx.violation(rid, "%s|%s|%s" % (file, name, w), file, fi.line, "%s no longer calls %s" % (name, w))
+                ctx.violation(rid, "%s|%s|%s" % (file, name, w), file, fi.line, "%s no longer reaches %s (through free-function and Self:: calls)" % (name, w))
     # from_slice -> checked
     found = False
     for fi in f.fns("src/parser.rs"):
         if fi.name == "from_slice" and not fi.in_test:
             found = True
-            c = calls(fi)
-            ctx.site(rid, "parser.rs|from_slice", "src/parser.rs", fi.line, {"calls": sorted(c)[:12]})
+            c = reaches(fi)
+            ctx.site(rid, "parser.rs|from_slice", "src/parser.rs", fi.line, {"reaches_checked": "cddl_from_pest_str_checked" in c})
             if "cddl_from_pest_str_checked" not in c:
-                ctx.violation(rid, "parser.rs|from_slice|checked", "src/parser.rs", fi.line, "CDDL::from_slice does not call cddl_from_pest_str_checked")
+                ctx.violation(rid, "parser.rs|from_slice|checked", "src/parser.rs", fi.line, "CDDL::from_slice does not reach cddl_from_pest_str_checked")
     if not found:
         raise vf.Incomplete("CDDL::from_slice not found")
-    # checked: Some(..) from the walker must lead to Err
+    # checked: the outcomes of the parse, of convert_cddl and of the walker decide the result (abstract evaluation)
     for fi in f.fn_all(B, "cddl_from_pest_str_checked"):
-        ok = False
-        for n in vf.walk(fi.node):
-            if n["k"] == "if" and n["c"]["k"] == "let" and vf.pat_path(n["c"]["pat"]) == "Some" and "find_first_undefined_reference" in vf.src(n["c"]["e"]) + json_s(n["c"]["e"]):
-                if any(x["k"] == "ret" and vf.src(x).startswith("return Err") or (x["k"] == "call" and vf.src(x["f"]) == "Err") for x in vf.walk(n["t"])):
-                    ok = True
-        ctx.site(rid, "checked|some->err", B, fi.line, {"ok": ok})
-        if not ok:
-            ctx.violation(rid, "checked|some->err", B, fi.line, "cddl_from_pest_str_checked does not turn Some(undefined reference) into Err")
+        for parse_ok in (True, False):
+            for conv_ok in (True, False):
+                for undef in (False, True):
+                    key = "checked|parse %s|convert %s|undefined %s" % ("ok" if parse_ok else "err", "ok" if conv_ok else "err", undef)
+
+                    def on_call(kind, name, node, args, recv, parse_ok=parse_ok, conv_ok=conv_ok, undef=undef):
+                        if kind == "fn" and name:
+                            b = name.split("::")[-1]
+                            if b == "parse" and "CddlParser" in name:
+                                return ("Ok", ("pairs",)) if parse_ok else ("Err", ("str", "pest error"))
+                            if b == "convert_pest_error":
+                                return ("str", "converted pest error")
+                            if b == "convert_cddl":
+                                return ("Ok", ("str", "AST")) if conv_ok else ("Err", ("str", "duplicate"))
+                            if b == "find_first_undefined_reference":
+                                return ("Some", ("tuple", [("str", "x"), OPAQUE])) if undef else ("None",)
+                        if kind == "method" and name == "clone":
+                            return recv
+                        return NotImplemented
+                    it = Interp(env={"input": OPAQUE}, cfg=absint.default_cfg, on_call=on_call)
+                    try:
+                        try:
+                            res = it.block(fi.node["body"])
+                        except Return as r:
+                            res = r.v
+                    except Unknown as e:
+                        ctx.incomplete_msg(rid, "%s: %s" % (key, e))
+                        continue
+                    want_ok = parse_ok and conv_ok and not undef
+                    got_ok = isinstance(res, tuple) and res[0] == "Ok"
+                    ctx.site(rid, key, B, fi.line, {"result": "Ok" if got_ok else "Err"})
+                    if got_ok != want_ok or (got_ok and res[1] != ("str", "AST")):
+                        ctx.violation(rid, "checked|%s" % ("undefined-accepted" if undef and got_ok else "duplicate-accepted" if not conv_ok and got_ok else "outcome"),
+                                      B, fi.line, "cddl_from_pest_str_checked returns %s when the parse is %s, convert_cddl %s and an undefined reference is %s"
+                                      % ("Ok" if got_ok else "Err", "ok" if parse_ok else "an error", "succeeds" if conv_ok else "reports a duplicate",
+                                         "found" if undef else "not found"))
 
 
 def json_s(n):
